@@ -242,7 +242,19 @@ def discover_stages(project):
                 if len(defs_) == 1:
                     st.worker = _resolve_function(project, f, defs_[0].value)
             if st.worker is not None:
+                w0 = st.worker
                 st.worker = splice(project, st.worker)
+                if not any(isinstance(n, (ast.For, ast.While)) for n in own_nodes(st.worker.node)):
+                    # the worker hands its receive loop (a generator over the queue) to a shared body function: flatten both
+                    w2 = flatten(project, w0)
+                    if any(isinstance(n, (ast.For, ast.While)) for n in own_nodes(w2.node)):
+                        # a handler handed to a serving helper (`serve(queue, flag, lambda item: callback(*item))`) is called where it is used
+                        from sa import objinline as _oi
+                        try:
+                            w2 = _oi.inline_local_closures(w2)
+                        except Exception:
+                            pass
+                        st.worker = w2
             args = [k.value for k in pc.keywords if k.arg == "args"]
             if args and not isinstance(args[0], (ast.Tuple, ast.List)):
                 # args=<local name bound once to a tuple literal>, (q, ev) + tuple(extra), ...
